@@ -149,6 +149,12 @@ def _norm_functional(col, crate, norm, helpers, A, B):
         col.violation("N4", "%s|divide-both" % fk(norm), norm.loc(), "expected a negative-denominator path and a non-negative one in the normaliser")
 
 
+def _deep(t, p):
+    if t == p:
+        return True
+    return isinstance(t, tuple) and any(_deep(x, p) for x in t)
+
+
 def check(col, prog, tier, profile, fixture=None):
     crate = prog.crate(fixture or "rlib_rational")
     fk = util.fkey
@@ -175,9 +181,10 @@ def check(col, prog, tier, profile, fixture=None):
     col.rule("N5", "cross-multiplication identities of + - * / as polynomial normal forms", floor=4)
 
     # ---------------- N1 aggregates
+    clone_ok = util.structural_clone_bodies(crate, adt)   # a hand-written Clone verified to copy field by field
     for b in crate.bodies:
         imp = crate.impl_of(b)
-        if imp is not None and imp.get("derived"):
+        if (imp is not None and imp.get("derived")) or b.key in clone_ok:
             continue
         sites = [(bb, idx) for bb, idx, s in b.statements() if s["k"] == "assign" and s["rv"]["k"] == "agg" and s["rv"]["ak"]["k"] == "adt" and s["rv"]["ak"]["def"] == adt["key"]]
         if not sites:
@@ -326,17 +333,15 @@ def check(col, prog, tier, profile, fixture=None):
                 col.violation("N2", key, b.loc(), "%s does not delegate to the by-reference %s impl on (self, rhs): %s" % (b.path, base, detail))
 
     # ---------------- N3
-    derived = {}
-    for imp in _impls(crate, adt["key"]):
-        tr = (imp.get("trait") or "").split("::")[-1]
-        if tr in ("PartialEq", "Eq", "Hash"):
-            derived[tr] = imp.get("derived")
-    for tr in ("PartialEq", "Eq", "Hash"):
+    eq_ok, eq_why = util.structural_eq(crate, adt)
+    hash_ok, hash_why = util.structural_hash(crate, adt)
+    has_eq = any(i.get("self_adt") == adt["key"] and str(i.get("trait") or "").endswith("cmp::Eq") for i in crate.impls)
+    for tr, good, why_ in (("PartialEq", eq_ok, eq_why), ("Eq", eq_ok and has_eq, eq_why if has_eq else "no Eq impl"), ("Hash", hash_ok, hash_why)):
         key = "Rational|%s-derived" % tr
-        if derived.get(tr):
-            col.ok("N3", "%s:%d" % (adt["span"]["file"], adt["span"]["line"]), key, "#[derive(%s)] over fields a, b" % tr, nontrivial=False)
+        if good:
+            col.ok("N3", "%s:%d" % (adt["span"]["file"], adt["span"]["line"]), key, "structural over fields a, b (%s)" % why_, nontrivial=False)
         else:
-            col.violation("N3", key, "%s:%d" % (adt["span"]["file"], adt["span"]["line"]), "%s for Rational is %s: equality and hashing must both be the derived structural ones (on the canonical form) to stay coherent" % (tr, "hand-written" if tr in derived else "missing"))
+            col.violation("N3", key, "%s:%d" % (adt["span"]["file"], adt["span"]["line"]), "%s for Rational is not the structural one (%s): equality and hashing must both be field by field on the canonical form to stay coherent" % (tr, why_))
     sub = byref["Sub"]
     for b in crate.bodies:
         imp = crate.impl_of(b)
@@ -360,6 +365,19 @@ def check(col, prog, tier, profile, fixture=None):
                         sargs = lhs[2][2]
                         ok = sargs[0][0] == "load" and sargs[0][2] == ("deref", ("param", 1, I.names.get(1))) and sargs[1] in (("param", 2, I.names.get(2)), ("ref", ("deref", ("param", 2, I.names.get(2)))))
                 key = "%s|sign-of-difference" % fk(b)
+                if not ok and ret[0] == "agg" and isinstance(ret[1], tuple) and ret[1][0] == "adt" and ret[1][3] == "Equal":
+                    # a fast path: the operands compare equal (structural equality on the canonical form is numeric
+                    # equality, judged above), so the difference is zero
+                    p1_, p2_ = ("param", 1, I.names.get(1)), ("param", 2, I.names.get(2))
+                    for f in st.facts:
+                        t = f[1]
+                        if f[0] == "eq" and f[2] == 1 and isinstance(t, tuple) and t and t[0] == "call" and "PartialEq" in str(t[1]) and str(t[1]).endswith("::eq"):
+                            ments = [any(x == p for x in subterms(t)) or any(_deep(t, p) for _ in (0,)) for p in (p1_, p2_)]
+                            if all(ments) and eq_ok:
+                                ok = True
+                    if ok:
+                        col.ok("N3", b.loc(), key + "|equal-fast-path", "self == rhs -> Equal")
+                        continue
                 if ok:
                     col.ok("N3", b.loc(), key, "cmp = (self - rhs).a.cmp(&ZERO)")
                 else:
@@ -399,18 +417,18 @@ def check(col, prog, tier, profile, fixture=None):
         okdiv = okdiv and {strip_mem(x) for x in g[0].args} == {("load", None, fa), ("load", None, fb)}
         if not okdiv and len(g) == 1 and not da and _known_one(st, g[0].res) and {strip_mem(x) for x in g[0].args} == {("load", None, fa), ("load", None, fb)}:
             okdiv = True  # gcd == ONE on this path: dividing both fields by one is skipped
+        # the sign test is the FIRST comparison of b with ZERO on the path (assertions after the repair restate the result)
         neg = None
-        strict_seen = False
-        for f in sorted(st.facts, key=lambda f_: 0 if isinstance(f_[1], tuple) and f_[1] and f_[1][0] == "call" and str(f_[1][1]).endswith(("::lt", "::ge")) else 1):
-            t = f[1]
-            if isinstance(t, tuple) and t and t[0] == "call" and str(t[1]).endswith(("PartialOrd::lt", "PartialOrd::ge", "PartialOrd::le", "PartialOrd::gt")) and f[0] == "eq":
-                args = [x for x in t[2] if not (isinstance(x, tuple) and x and x[0] == "mem")]
-                if args[0] == ("ref", fb) and args[1][0] == "ref" and args[1][1][0] == "constval" and args[1][1][1][0] == "assoc" and args[1][1][1][2] == "ZERO":
-                    weak = str(t[1]).endswith(("::le", "::gt"))   # b <= 0 / b > 0: the same test, a denominator is never zero
-                    if weak and strict_seen:
-                        continue   # (a `debug_assert!(b > 0)` after the repair is not the branch)
-                    strict_seen = strict_seen or not weak
-                    neg = bool(f[2]) if str(t[1]).endswith(("::lt", "::le")) else not bool(f[2])
+        truth_of = {f[1]: bool(f[2]) for f in st.facts if f[0] == "eq" and f[2] in (0, 1)}
+        for e in evs:
+            if neg is not None:
+                break
+            if e.kind != "call" or not str(e.callee).endswith(("PartialOrd::lt", "PartialOrd::ge", "PartialOrd::le", "PartialOrd::gt")) or e.res not in truth_of:
+                continue
+            args = [x for x in e.res[2] if not (isinstance(x, tuple) and x and x[0] == "mem")]   # (the result term: operands as values)
+            if len(args) == 2 and args[0] == ("ref", fb) and args[1][0] == "ref" and args[1][1][0] == "constval" and args[1][1][1][0] == "assoc" and args[1][1][1][2] == "ZERO":
+                # (b <= 0 / b > 0 are the same test: a denominator is never zero)
+                neg = truth_of[e.res] if str(e.callee).endswith(("::lt", "::le")) else not truth_of[e.res]
         final_a, final_b = I.load(st.mem, fa), I.load(st.mem, fb)
         after_div = da[-1].state[1] if da else None
         key = "%s|%s" % (fk(norm), "negative-branch" if neg else "non-negative-branch")
